@@ -85,6 +85,16 @@ func c07Run(c *mon.Ctx, r *mon.Rand) {
 		rec = pr.Recorder
 		opts.Reporter = pr
 	}
+	// a cached reporter whose counter allocation takes a while: first uses of new
+	// names hold the scope's metric lock for that long (see the creators below)
+	slowAlloc := cached && r.Chance(1, 2)
+	if slowAlloc {
+		rec.Delay = func(k mon.EvKind) {
+			if k == mon.EvAllocCounter {
+				time.Sleep(60 * time.Microsecond)
+			}
+		}
+	}
 	shards := []uint{1, 1, 2, 3, 16, 0}[r.Intn(6)] // 0 = the public constructor (GOMAXPROCS shards)
 	interval := time.Duration(0)
 	if r.Chance(1, 3) && !c.Race {
@@ -118,7 +128,7 @@ func c07Run(c *mon.Ctx, r *mon.Rand) {
 	}
 	root, closer := vNewRoot(opts, interval, shards)
 	desc := map[string]interface{}{"sanitizer": withSan, "root_tags": len(rootTags), "cached": cached, "shards": shards, "interval_us": interval.Microseconds(), "workers": nWorkers, "passers": nPassers,
-		"epochs": epochs, "ops_per_epoch": opsPerEpoch, "delay_strength": prof.Strength}
+		"epochs": epochs, "ops_per_epoch": opsPerEpoch, "delay_strength": prof.Strength, "slow_counter_allocation": slowAlloc}
 	c.LogCase(fmt.Sprint(desc))
 	stopWatch := c.Watchdog(300*time.Second, "no-progress(deadlock?)", desc)
 	defer stopWatch()
@@ -250,10 +260,26 @@ func c07Run(c *mon.Ctx, r *mon.Rand) {
 							if h.id.never {
 								continue
 							}
+							// another goroutine of the application makes the first use of a new
+							// name on this scope (never recorded on) while it is closed and gets
+							// its final report
+							var creator chan struct{}
+							if slowAlloc && wr.Chance(1, 2) {
+								creator = make(chan struct{})
+								sc, nm := h.sc, fmt.Sprintf("extra_%d_%d_%d", e, w, i)
+								go func() {
+									defer close(creator)
+									sc.Counter(nm)
+								}()
+								runtime.Gosched()
+							}
 							call := hist.Tick()
 							h.sc.(io.Closer).Close()
 							if recordHist {
 								hist.Add(w, mon.RegIn{Close: true, Ident: h.id.name, Obj: h.obj}, call, 0, hist.Tick())
+							}
+							if creator != nil {
+								<-creator
 							}
 							h.id.closes++
 							if wr.Chance(1, 3) {
